@@ -37,11 +37,11 @@ class Handler(object):
     VSvc, VBase, T = vsvc()
     self.calls.append((name, args))
     if self.outcome == 'declared':
-      raise T.SvcError('declared-é', 7)
+      raise T.SvcError('declared-é 100% %s %d', 7)
     if self.outcome == 'denied':
-      raise T.AuthError('no-é')
+      raise T.AuthError('no-é %(x)s 5%')
     if self.outcome == 'appexc':
-      raise TApplicationException(TApplicationException.INTERNAL_ERROR, 'app-failure')
+      raise TApplicationException(TApplicationException.INTERNAL_ERROR, 'app-failure 7% %s')
     if self.outcome == 'crash':
       raise RuntimeError('handler crashed')
     return self.value
